@@ -98,11 +98,13 @@ pub struct Cfg {
     pub seed2: u64,
     /// fault rate class of the run, 0 = fault-free (informational)
     pub rate: u8,
+    /// which object the run drives where a scenario has a choice (0 = Keyboard, 1 = bare stage)
+    pub obj: u8,
 }
 
 impl Default for Cfg {
     fn default() -> Cfg {
-        Cfg { set: 2, xt: false, layout: 2, map: true, seed2: 0, rate: 0 }
+        Cfg { set: 2, xt: false, layout: 2, map: true, seed2: 0, rate: 0, obj: 0 }
     }
 }
 
@@ -222,8 +224,8 @@ impl Trace {
         let c = &self.cfg;
         let _ = writeln!(
             s,
-            "cfg set={} xt={} layout={} map={} seed2={} rate={}",
-            c.set, c.xt as u8, c.layout, c.map as u8, c.seed2, c.rate
+            "cfg set={} xt={} layout={} map={} seed2={} rate={} obj={}",
+            c.set, c.xt as u8, c.layout, c.map as u8, c.seed2, c.rate, c.obj
         );
         if let Some(e) = &self.expect {
             let _ = writeln!(s, "expect oracle={}", e.oracle);
@@ -273,6 +275,7 @@ impl Trace {
                         map: num("map")? != 0,
                         seed2: num("seed2")?,
                         rate: num("rate")? as u8,
+                        obj: num("obj").unwrap_or(0) as u8,
                     };
                     if tr.cfg.set != 1 && tr.cfg.set != 2 {
                         return Err(err("set must be 1 or 2"));
